@@ -457,6 +457,33 @@ def r9(p, rep):
                 rep.add("C13.R9", key, site, ok, f"pipeline {[x.split('.')[-2] if '.' in x else x for x in names]}: the factory stage is applied last" if ok else f"`{names[fac[-1]]}` is applied before `{names[-1]}`: the later stage wraps the factory stage and runs while factory arguments are still un-called (e.g. the device of a tensor produced by a factory is never seen, `device=None`)")
 
 
+def r10(p, rep):
+    rep.rule("C13.R10", "per-operation keyword dictionaries are built per operation: no mutable object created before a loop is changed inside it and handed to what is stored for each iteration", "aliasing lint (loop-shared mutable) with a positive self-check", floor=2)
+    import os
+
+    from sa.core import set_parents
+
+    n = 0
+    for f in p.funcs.values():
+        if not isinstance(f.node, (ast.FunctionDef, ast.AsyncFunctionDef)) or not (f.module.name.startswith("einx._src.adapter") or f.module.name.startswith("einx._src.frontend")):
+            continue
+        if not any(isinstance(x, ast.For) for x in walk_no_nested(f.node)):
+            continue
+        n += 1
+        hits = common.loop_shared_mutables(f.node)
+        for st, name in hits:
+            rep.violation("C13.R10", f"{f.qualname}:shared:{name}", f"{f.module.rel}:{st.lineno}", f"`{name}` is created before the loop, modified inside it and passed into `{norm(st)[:60]}` on every iteration: all entries share one object (e.g. every factory receives the name of the FIRST operation of the table)")
+    rep.info["functions_with_loops_inspected"] = n
+    pos = os.path.join(os.path.dirname(os.path.dirname(os.path.abspath(__file__))), "selftest", "positive", "loop_shared_mutable.py")
+    tree = ast.parse(open(pos).read())
+    set_parents(tree)
+    fns = {x.name: x for x in tree.body if isinstance(x, ast.FunctionDef)}
+    if len(common.loop_shared_mutables(fns["bad"])) != 1 or common.loop_shared_mutables(fns["good"]):
+        raise AnalysisError("self-check of the loop-shared-mutable lint failed on selftest/positive/loop_shared_mutable.py")
+    rep.ok("C13.R10", "self-check:positive-example", "selftest/positive/loop_shared_mutable.py", "the lint reports the seeded positive example and is silent on its corrected twin")
+    rep.ok("C13.R10", "sweep", "einx/_src/adapter, einx/_src/frontend", f"{n} functions with loops inspected")
+
+
 def run(p, rep, tier):
     r1(p, rep)
     rep.rule("C13.R2", "graph=True never runs the compiled function", "T-DOM (guard on the false edge of `if graph`)", floor=2)
@@ -468,6 +495,7 @@ def run(p, rep, tier):
     r7(p, rep)
     r8(p, rep)
     r9(p, rep)
+    r10(p, rep)
     from . import c11 as _c11
 
     _c11.r8(p, rep)  # a backend whose factory module deviates from its siblings behaves differently for this property
